@@ -24,6 +24,7 @@ type ClientPlan struct {
 	Reqs              []ReqPlan `json:"reqs"`
 	Mode              string    `json:"mode"` // pipeline | closed | open
 	GapMs             int       `json:"gap_ms,omitempty"`
+	Window            int       `json:"window,omitempty"` // mode closed: up to this many requests outstanding (0/1 = strictly closed loop)
 	StartStep         int       `json:"start_step,omitempty"`
 	StartAfterClient  int       `json:"start_after_client,omitempty"` // 1-based: start when that client is finished/closed
 	StartAfterEvents  bool      `json:"start_after_events,omitempty"` // start once every planned event has fired
@@ -33,10 +34,12 @@ type ClientPlan struct {
 	CloseAfterReplies int       `json:"close_after_replies"` // -1 never
 	CloseRst          bool      `json:"close_rst,omitempty"`
 	Chunks            []int     `json:"chunks,omitempty"` // fixed segmentation (C08); empty = scheduler decides
+	PollAfterSend     bool      `json:"poll_after_send,omitempty"` // grant a poll right after each send, so that every chunk is a read of its own
 	Witness           bool      `json:"witness,omitempty"`
 	Phase             int       `json:"phase,omitempty"`   // profile-defined grouping (C18: whitelist phase the probe belongs to)
 	Note              string    `json:"note,omitempty"`
 	Hostile           bool      `json:"hostile,omitempty"` // sends arbitrary bytes: its replies are not position-checked
+	SendAfterAccepts  int       `json:"send_after_accepts,omitempty"` // do not send before the proxy has accepted this many connections (crowd barrier)
 }
 
 type ProxyCfg struct {
